@@ -1,5 +1,5 @@
 (* Property C17 — including a file is equivalent to assembling its text in place (under a fresh file scope). *)
-From BA Require Import Base Bits Expr Subst Cond CondEval Layout Data Program ProgramProofs ReaderProofs.
+From BA Require Import NoFuel Base Bits Expr Subst Cond CondEval Layout Data Program ProgramProofs ReaderProofs.
 
 (* a file included more than once is rejected *)
 Theorem C17_included_twice_rejected : forall cfg load_file fid g fs acc t,
@@ -39,3 +39,12 @@ Theorem C17_file_scope_isolated : forall regs ls sc n v,
   \/ (mem n regs = false /\ lfind ls (KGlobal n) = Some v).
 Proof. exact lookup_sound. Qed.
 Print Assumptions C17_file_scope_isolated.
+
+(* a file can be included at most once, so the loader's recursion depth is bounded by the number of files: its fuel
+   never runs out, and the set of files already used only grows *)
+Theorem C17_loader_fuel_suffices : forall fuel cfg files fid g,
+  (unused (length files) (g_used g) + 1 < fuel)%nat ->
+  load fuel cfg files fid g <> OutOfFuel
+  /\ forall g' ls, load fuel cfg files fid g = Ok (g', ls) -> used_grows g g'.
+Proof. exact load_fuel_suffices. Qed.
+Print Assumptions C17_loader_fuel_suffices.
